@@ -18,7 +18,11 @@ from concurrent.futures import ThreadPoolExecutor
 import vlib
 import layer_t
 
-PINS = ["C18_count_roundtrip", "C18_count_interface", "C18_minrc_interface"]
+PINS = ["C18_count_roundtrip", "C18_count_interface", "C18_minrc_interface",
+        # deferrer variants of the runtime machine (coq/R/Dkind.v, DkindSim.v; see docs/layer_cfg.md)
+        "C18_deferrer_prefix", "C18_deferrer_prefix_any", "C18_deferrer_full",
+        "C18_deferrer_example", "C18_deferrer_new_first_needed", "C18_deferrer_full_example",
+        "C18_deferrer_limbo_flag_insufficient"]
 
 
 def configurations():
